@@ -1130,6 +1130,39 @@ Proof.
                                 repeat constructor|]). destruct H.
 Qed.
 
+Lemma nn_space_not_ident b : is_nn_space b = true -> is_ident_char b = false.
+Proof.
+  intros Es. destruct (is_ident_char b) eqn:Hid0; [|reflexivity]. exfalso.
+  unfold is_nn_space in Es. unfold is_ident_char in Hid0.
+  apply andb_true_iff in Es. destruct Es as [Es _]. apply andb_true_iff in Es. destruct Es as [Es _].
+  unfold is_space in Es. apply orb_true_iff in Es.
+  assert (Q : b <= 32).
+  { destruct Es as [Es|Es]; [apply andb_true_iff in Es; destruct Es as [_ Es]; apply N.leb_le in Es; lia
+                            | apply N.eqb_eq in Es; lia]. }
+  repeat (apply orb_true_iff in Hid0; destruct Hid0 as [Hid0|Hid0]);
+    try (apply andb_true_iff in Hid0; destruct Hid0 as [Hid0 _]; apply N.leb_le in Hid0; lia);
+    apply N.eqb_eq in Hid0; lia.
+Qed.
+
+(* a token that starts with an identifier character is an identifier, a keyword or a string *)
+Lemma kind_facts_head_ident m k body rest' b0 body' :
+  kind_facts m k body rest' -> body = b0 :: body' -> is_ident_char b0 = true ->
+  is_identlike k = true \/ k = TkString.
+Proof.
+  intros Hk Hb0 Hid0.
+  destruct k; cbn [kind_facts] in Hk; try (left; reflexivity); try (right; reflexivity); exfalso.
+  - destruct Hk as [Hk _]. rewrite Hk in Hb0. inversion Hb0; subst. discriminate.
+  - destruct Hk as [c [Hk _]]. rewrite Hk in Hb0. inversion Hb0; subst. discriminate.
+  - destruct Hk as [Hk _]. congruence.
+  - destruct Hk as [Hk _]. rewrite Hk in Hb0. inversion Hb0; subst. discriminate.
+  - destruct Hk as [_ [F _]]. rewrite Hb0 in F. inversion F as [|x l Hx]; subst.
+    rewrite (nn_space_not_ident b0 Hx) in Hid0. discriminate.
+  - destruct Hk as [Hk|[Hk|[Hk|Hk]]]; rewrite Hk in Hb0; inversion Hb0; subst; discriminate.
+  - destruct Hk as [Hk _]. rewrite Hk in Hb0. inversion Hb0; subst. discriminate.
+  - destruct Hk as [Hk _]. rewrite Hk in Hb0. inversion Hb0; subst. discriminate.
+  - destruct Hk as [x [Hk [Hx _]]]. rewrite Hk in Hb0. inversion Hb0; subst. congruence.
+Qed.
+
 (* a token kind, its bytes and what follows it - independent of the buffer representation *)
 Lemma kind_facts_keywords m k body rest' : kind_facts m k body rest' ->
   (is_keyword k = true -> m = MNone /\ In (body, k) keyword_table) /\
@@ -1153,31 +1186,10 @@ Proof.
     + rewrite Hkk in Kw. discriminate.
   - intros -> k' Hin. destruct (keyword_table_kinds body k' Hin) as [Kw' [Hne Hall]].
     pose proof (ident_kind_of_keyword body k' Hin) as Hik.
-    assert (Hhead : exists b0 body', body = b0 :: body' /\ is_ident_char b0 = true).
-    { destruct body as [|b0 body']; [congruence|]. inversion Hall; subst. eauto. }
-    destruct Hhead as [b0 [body' [Hb0 Hid0]]].
-    destruct k; cbn [kind_facts] in Hk;
-      try (destruct Hk as [_ [_ [_ [_ Hkk]]]]; rewrite Hkk; exact Hik).
-    + (* Colon *) destruct Hk as [Hk _]. rewrite Hk in Hb0. inversion Hb0; subst. discriminate.
-    + (* Comment *) destruct Hk as [c [Hk _]]. rewrite Hk in Hb0. inversion Hb0; subst. discriminate.
-    + (* EndOfFile *) destruct Hk as [Hk _]. congruence.
-    + (* Equals *) destruct Hk as [Hk _]. rewrite Hk in Hb0. inversion Hb0; subst. discriminate.
-    + (* Indentation *) destruct Hk as [_ [F _]]. rewrite Hb0 in F. inversion F as [|x l Hx]; subst.
-      destruct (is_nn_space b0) eqn:Es; [|discriminate].
-      unfold is_nn_space in Es. unfold is_ident_char in Hid0. exfalso.
-      apply andb_true_iff in Es. destruct Es as [Es _]. apply andb_true_iff in Es. destruct Es as [Es _].
-      unfold is_space in Es. apply orb_true_iff in Es.
-      assert (Q : b0 <= 32).
-      { destruct Es as [Es|Es]; [apply andb_true_iff in Es; destruct Es as [_ Es]; apply N.leb_le in Es; lia
-                                | apply N.eqb_eq in Es; lia]. }
-      repeat (apply orb_true_iff in Hid0; destruct Hid0 as [Hid0|Hid0]);
-        try (apply andb_true_iff in Hid0; destruct Hid0 as [Hid0 _]; apply N.leb_le in Hid0; lia);
-        apply N.eqb_eq in Hid0; lia.
-    + (* Newline *) exfalso. destruct Hk as [Hk|[Hk|[Hk|Hk]]]; rewrite Hk in Hb0; inversion Hb0; subst; discriminate.
-    + (* Pipe *) destruct Hk as [Hk _]. rewrite Hk in Hb0. inversion Hb0; subst. discriminate.
-    + (* PipePipe *) destruct Hk as [Hk _]. rewrite Hk in Hb0. inversion Hb0; subst. discriminate.
-    + (* String *) destruct Hk as [_ [[Hm _]|[Hm _]]]; discriminate.
-    + (* Unknown *) destruct Hk as [x [Hk [Hx _]]]. rewrite Hk in Hb0. inversion Hb0; subst. congruence.
+    destruct body as [|b0 body']; [congruence|]. inversion Hall as [|x l Hid0 _]; subst x l.
+    destruct (kind_facts_head_ident _ _ _ _ _ _ Hk eq_refl Hid0) as [Hi|Hs].
+    + destruct (Hident Hi) as [_ [_ [_ [_ Hkk]]]]. rewrite Hkk. exact Hik.
+    + rewrite Hs in Hk. cbn in Hk. destruct Hk as [_ [[Hm _]|[Hm _]]]; discriminate.
   - intros Hi. destruct (Hident Hi) as [H1 [H2 [H3 _]]]. auto.
 Qed.
 
@@ -1254,20 +1266,6 @@ Proof.
   destruct (is_ident_char b) eqn:E; [discriminate|]. intros _. cbn. rewrite E. reflexivity.
 Qed.
 
-Lemma nn_space_not_ident b : is_nn_space b = true -> is_ident_char b = false.
-Proof.
-  intros Es. destruct (is_ident_char b) eqn:Hid0; [|reflexivity]. exfalso.
-  unfold is_nn_space in Es. unfold is_ident_char in Hid0.
-  apply andb_true_iff in Es. destruct Es as [Es _]. apply andb_true_iff in Es. destruct Es as [Es _].
-  unfold is_space in Es. apply orb_true_iff in Es.
-  assert (Q : b <= 32).
-  { destruct Es as [Es|Es]; [apply andb_true_iff in Es; destruct Es as [_ Es]; apply N.leb_le in Es; lia
-                            | apply N.eqb_eq in Es; lia]. }
-  repeat (apply orb_true_iff in Hid0; destruct Hid0 as [Hid0|Hid0]);
-    try (apply andb_true_iff in Hid0; destruct Hid0 as [Hid0 _]; apply N.leb_le in Hid0; lia);
-    apply N.eqb_eq in Hid0; lia.
-Qed.
-
 Lemma is_keyword_code_kind k : is_keyword_code (kind_code k) = is_keyword k.
 Proof. destruct k; reflexivity. Qed.
 
@@ -1284,25 +1282,6 @@ Proof.
   destruct (bytes_eqb p kw_subninja) eqn:E6; [apply bytes_eqb_eq in E6; subst p; reflexivity|].
   unfold ident_kind. rewrite E1, E2, E3, E4, E5, E6.
   destruct (length p) as [|[|[|[|[|[|[|[|[|n]]]]]]]]]; reflexivity.
-Qed.
-
-(* a token that starts with an identifier character is an identifier, a keyword or a string *)
-Lemma kind_facts_head_ident m k body rest' b0 body' :
-  kind_facts m k body rest' -> body = b0 :: body' -> is_ident_char b0 = true ->
-  is_identlike k = true \/ k = TkString.
-Proof.
-  intros Hk Hb0 Hid0.
-  destruct k; cbn [kind_facts] in Hk; try (left; reflexivity); try (right; reflexivity); exfalso.
-  - destruct Hk as [Hk _]. rewrite Hk in Hb0. inversion Hb0; subst. discriminate.
-  - destruct Hk as [c [Hk _]]. rewrite Hk in Hb0. inversion Hb0; subst. discriminate.
-  - destruct Hk as [Hk _]. congruence.
-  - destruct Hk as [Hk _]. rewrite Hk in Hb0. inversion Hb0; subst. discriminate.
-  - destruct Hk as [_ [F _]]. rewrite Hb0 in F. inversion F as [|x l Hx]; subst.
-    rewrite (nn_space_not_ident b0 Hx) in Hid0. discriminate.
-  - destruct Hk as [Hk|[Hk|[Hk|Hk]]]; rewrite Hk in Hb0; inversion Hb0; subst; discriminate.
-  - destruct Hk as [Hk _]. rewrite Hk in Hb0. inversion Hb0; subst. discriminate.
-  - destruct Hk as [Hk _]. rewrite Hk in Hb0. inversion Hb0; subst. discriminate.
-  - destruct Hk as [x [Hk [Hx _]]]. rewrite Hk in Hb0. inversion Hb0; subst. congruence.
 Qed.
 
 (* at the start of a line, leading whitespace is an Indentation token and '$' is not a continuation *)
